@@ -183,4 +183,6 @@ def section07():
     C07_TEXT = "\n".join(out)
     return C07_TEXT
 exec(open(__file__.replace("gen_bifs.py","gen_bifs_tables.py")).read())
-print(HEADER); print(section08()); print(); print(section07()); print(); print(section_tables())
+exec(open(__file__.replace("gen_bifs.py","gen_bifs_time.py")).read())
+exec(open(__file__.replace("gen_bifs.py","gen_bifs_c14.py")).read())
+print(HEADER); print(section08()); print(); print(section07()); print(); print(section_tables()); print(); print(section_time()); print(); print(section_c14())
